@@ -266,7 +266,9 @@ func vhook(point string, a ...interface{}) {
 		e["c"], e["s"], e["nkey"], e["datasize"] = a[1], a[2], a[3], blk(a[4])
 	case "f.enter", "f.lock", "f.unlock", "f.begin":
 		e["c"] = a[1]
-	case "f.snap", "f.detach":
+	case "f.snap":
+		e["c"], e["cnt"], e["gc"] = a[1], a[2], a[3]
+	case "f.detach":
 		e["c"], e["cnt"] = a[1], a[2]
 	case "f.written":
 		e["c"], e["cnt"], e["nblk"] = a[1], a[2], blk(a[3])
